@@ -242,7 +242,9 @@ impl PollCase {
             w.elapsed_ns = w.elapsed_ns.saturating_add(dur_ns(d).min(i128::MAX as u128 / 4) as i128).min(i128::MAX / 4);
         };
         let timeout = self.timeout.map(|(s, n)| Duration::new(s, n));
-        let rq = client.exchange_device_access_token(&dar);
+        // an extra parameter, so that "every poll is the same request" also covers state the request builder carries
+        // (extras handed over only to the first poll would show as a differing second request)
+        let rq = client.exchange_device_access_token(&dar).add_extra_param("poll_extra", "v&=1");
         let rq = if self.glue & 1 == 1 {
             // ceiling first, clock second
             let rq = match self.max_backoff {
